@@ -140,6 +140,13 @@ func c16Schema(x *mc.Exec, types, names []string, maxRels int) []c16Rel {
 	return rels
 }
 
+// c16Loose: the two halves of a pair carry cardinality fields that were filled in
+// independently, as BuildType does (it never sets FromOne): Check does not look
+// at them, so the schema is coherent all the same.
+var c16Loose bool
+
+func c16NameKey(r j.Rel) [4]string { return [4]string{r.FromType, r.FromName, r.ToType, r.ToName} }
+
 func c16Build(types []string, order []int, rels []c16Rel) *j.Schema {
 	s := &j.Schema{}
 	byName := map[string]*j.Type{}
@@ -157,8 +164,13 @@ func c16Build(types []string, order []int, rels []c16Rel) *j.Schema {
 			byName[r.slot.owner].Rels[r.slot.name] = a
 			continue
 		}
+		b := a.Invert()
+		if c16Loose {
+			a.FromOne = false
+			b.ToOne, b.FromOne = !r.toOne, false
+		}
 		byName[r.slot.owner].Rels[r.slot.name] = a
-		byName[r.partner.owner].Rels[r.partner.name] = a.Invert()
+		byName[r.partner.owner].Rels[r.partner.name] = b
 	}
 	for _, i := range order {
 		if err := s.AddType(*byName[types[i]]); err != nil {
@@ -177,8 +189,16 @@ func c16Rels(x *mc.Exec) {
 		names = []string{"x", "bx", "b_x"}
 		maxRels = 3
 	}
+	shape := x.Choose(3, "shape")
+	if shape == 1 {
+		// a schema with a single type (pairs within the type)
+		types = types[:1]
+	}
+	loose := shape == 2
+	c16Loose = loose
+	defer func() { c16Loose = false }()
 	rels := c16Schema(x, types, names, maxRels)
-	desc := ""
+	desc := []string{"", "single type: ", "cardinality fields filled in per half: "}[shape]
 	nOne, nTwo := 0, 0
 	for _, r := range rels {
 		if r.partner == nil {
@@ -258,12 +278,27 @@ func c16Rels(x *mc.Exec) {
 			if b != a {
 				n += count[b]
 			}
+			if loose {
+				// whichever half's cardinalities are reported, the pair is identified by its names
+				n = 0
+				for _, g := range got {
+					if c16NameKey(g) == c16NameKey(a) || c16NameKey(g) == c16NameKey(b) {
+						n++
+					}
+				}
+			}
 			if n != 1 {
 				x.Fail("C16:rels:two-way-count", "schema %s (order %v): pair %s / inverse listed %d times in %s", desc, order, showRel(a), n, showRels(got))
 			}
 		}
 		if len(got) != want {
 			x.Fail("C16:rels:length", "schema %s (order %v): Rels() has %d entries, expected %d: %s", desc, order, len(got), want, showRels(got))
+		}
+		if loose {
+			// compared by names only: which half's cardinality fields are shown is not judged
+			for i := range got {
+				got[i].ToOne, got[i].FromOne = false, false
+			}
 		}
 		if oi == 0 {
 			ref = got
@@ -275,7 +310,13 @@ func c16Rels(x *mc.Exec) {
 	// the canonical list must also be what the default schedule gives
 	s := c16Build(types, orders[0], rels)
 	var base []j.Rel
-	if p := Try(func() { base = s.Rels() }); p == "" && !reflect.DeepEqual(base, ref) {
+	p := Try(func() { base = s.Rels() })
+	if loose {
+		for i := range base {
+			base[i].ToOne, base[i].FromOne = false, false
+		}
+	}
+	if p == "" && !reflect.DeepEqual(base, ref) {
 		keys := func(l []j.Rel) []string {
 			var o []string
 			for _, r := range l {
@@ -430,8 +471,8 @@ func c16Underscore(x *mc.Exec) {
 func init() {
 	Register(&Prop{
 		ID: "C16",
-		Rule: "Engine A: (a) ALL Rel values with FromType, FromName, ToType, ToName in {\"\",a,b,ab,bc,c,a_b} (names whose concatenations and _-joined keys collide) x 4 cardinality pairs = 9604 values, laws asserted directly (involution, idempotence, range, one-way untouched, symmetric Normalize and String for two-way relationships with four non-empty names; self-inverse only with equal cardinalities); (b) every coherent schema over types {a,ab}(,b) and relationship names {x,bx}(,a_x) built slot by slot (absent / one-way to any type / two-way with any later free slot / self-inverse), every order of AddType, and every map-iteration order of one loop instance inside Rels() (deviation bound 1). (c) one coherent schema built through AddType/AddRel/AddTwoWayRel in every dependency-respecting order of its 5 construction steps with Rels() called after every subset of the steps; the final listing must equal the one of a schema built in one go. Non-trivial = two-way relationship value / schema with at least one two-way pair / every incremental build",
-		Assumptions: []string{"relationships in the symmetric laws have non-empty FromType, FromName, ToType, ToName (what a schema can hold)"},
+		Rule: "Engine A: (a) ALL Rel values with FromType, FromName, ToType, ToName in {\"\",a,b,ab,bc,c,a_b} (names whose concatenations and _-joined keys collide) x 4 cardinality pairs = 9604 values, laws asserted directly (involution, idempotence, range, one-way untouched, symmetric Normalize and String for two-way relationships with four non-empty names; self-inverse only with equal cardinalities); (b) every coherent schema over types {a,ab}(,b) and relationship names {x,bx}(,a_x) built slot by slot (absent / one-way to any type / two-way with any later free slot / self-inverse), in three shapes (two types; a single type; halves whose cardinality fields were filled in independently, as BuildType does - pairs then identified by names), every order of AddType, and every map-iteration order of one loop instance inside Rels() (deviation bound 1). (c) one coherent schema built through AddType/AddRel/AddTwoWayRel in every dependency-respecting order of its 5 construction steps with Rels() called after every subset of the steps; the final listing must equal the one of a schema built in one go. Non-trivial = two-way relationship value / schema with at least one two-way pair / every incremental build",
+		Assumptions: []string{"relationships in the symmetric laws have non-empty FromType, FromName, ToType, ToName (what a schema can hold)", "for pairs whose halves disagree on the cardinality fields, which half's cardinalities the listing shows is not judged"},
 		Harnesses: []Harness{
 			{Name: "C16/laws", Body: c16Laws, ShardDepth: 1},
 			{Name: "C16/rels", Body: c16Rels, Dev: func() int { return 1 }},
